@@ -40,7 +40,7 @@ func c10Gen(rt *rapid.T, reconnect bool) c10Case {
 	g := rapid.IntRange(2, 8).Draw(rt, "goroutines")
 	for i := 0; i < g; i++ {
 		ops := rapid.SliceOfN(rapid.Custom(func(rt *rapid.T) c10Op {
-			return c10Op{Kind: rapid.SampledFrom(c10Kinds).Draw(rt, "kind"), Yields: rapid.IntRange(0, 3).Draw(rt, "y"), Len: rapid.SampledFrom([]int{0, 1, 10, 200, 3000}).Draw(rt, "len")}
+			return c10Op{Kind: rapid.SampledFrom(c10Kinds).Draw(rt, "kind"), Yields: rapid.IntRange(0, 3).Draw(rt, "y"), Len: rapid.SampledFrom([]int{0, 1, 10, 200, 3000, 4096, 5000, 20000, 70000}).Draw(rt, "len")}
 		}), 1, 8).Draw(rt, "ops")
 		c.Threads = append(c.Threads, ops)
 	}
